@@ -47,6 +47,11 @@ theorem step_conn (s : State) (op : Op) (p : Peer) :
     (connEvents p [(step s op).2] = [false] ∧ connected s p = true ∧ connected (step s op).1 p = false) := by
   cases op with
   | otherAlloc n => left; simp [step, connEvents, connected]
+  | managerCall => left; simp [step, connEvents]
+  | forceClose q sec prim =>
+    left
+    simp only [step, forceClose]
+    cases cget s.conns q <;> simp [connEvents]
   | «open» q permit send =>
     left
     simp only [step, openSubstream]
@@ -132,6 +137,10 @@ theorem alternation_gen (p : Peer) (ops : List Op) : ∀ s : State,
 theorem step_nextSub_le (s : State) (op : Op) : s.nextSub ≤ (step s op).1.nextSub := by
   cases op with
   | otherAlloc n => simp [step]
+  | managerCall => simp [step]
+  | forceClose q sec prim =>
+    simp only [step, forceClose]
+    cases cget s.conns q <;> simp
   | «open» q permit send =>
     simp only [step, openSubstream]
     cases cget s.conns q with
@@ -168,6 +177,8 @@ theorem step_openOk (s : State) (op : Op) (sid : Nat) (c : Nat)
     ∃ p permit send ctx, op = .open p permit send ∧ cget s.conns p = some ctx ∧ ctx.primary = c := by
   cases op with
   | otherAlloc n => simp [step] at h
+  | managerCall => simp [step] at h
+  | forceClose q sec prim => simp [step] at h
   | inner e =>
     simp only [step] at h
     split at h <;> simp at h
@@ -200,6 +211,7 @@ theorem accepted_ge (ops : List Op) : ∀ (s : State), ∀ sid ∈ acceptedIds (
     | silent => rw [ho] at h; simp only [acceptedIds] at h; have := ih _ sid h; omega
     | ev e => rw [ho] at h; simp only [acceptedIds] at h; have := ih _ sid h; omega
     | openErr e => rw [ho] at h; simp only [acceptedIds] at h; have := ih _ sid h; omega
+    | force r cs => rw [ho] at h; simp only [acceptedIds] at h; have := ih _ sid h; omega
 
 theorem ids_fresh_gen (ops : List Op) : ∀ (s : State),
     (acceptedIds (trace s ops)).Pairwise (· < ·) := by
@@ -220,6 +232,7 @@ theorem ids_fresh_gen (ops : List Op) : ∀ (s : State),
     | silent => simpa [acceptedIds] using ih _
     | ev e => simpa [acceptedIds] using ih _
     | openErr e => simpa [acceptedIds] using ih _
+    | force r cs => simpa [acceptedIds] using ih _
 
 
 
@@ -332,6 +345,12 @@ theorem inv_open {e : Env} {s : State} (h : Inv e s) (p : Nat) (permit : Bool) (
       fun x hx => by have := h.outLt x hx; omega, h.outNodup⟩
   | openErr err => 
     have he : envStep e (.open p permit send) (.openErr err) = e := by simp [envStep]
+    rw [he]
+    exact ⟨fun q d => by rw [hconns]; exact h.connIff q d, h.liveUsed,
+      fun q c => by rw [hconns]; exact h.distinct q c, h.outLive,
+      fun x hx => by have := h.outLt x hx; omega, h.outNodup⟩
+  | force r cs => 
+    have he : envStep e (.open p permit send) (.force r cs) = e := by simp [envStep]
     rw [he]
     exact ⟨fun q d => by rw [hconns]; exact h.connIff q d, h.liveUsed,
       fun q c => by rw [hconns]; exact h.distinct q c, h.outLive,
@@ -556,10 +575,25 @@ theorem inv_closed {e : Env} {s : State} (h : Inv e s) (p c : Nat)
     exact h.outLt x (List.mem_filter.mp hx).1
   · exact nodup_filter_map _ _ _ h.outNodup
 
+/-- `force_close` changes neither the service's state nor the environment. -/
+theorem step_forceClose_state (s : State) (p : Peer) (sec prim : SendRes) :
+    (step s (.forceClose p sec prim)).1 = s := by
+  simp only [step, forceClose]
+  cases cget s.conns p <;> rfl
+
+theorem envStep_forceClose (e : Env) (p : Peer) (sec prim : SendRes) (o : Obs) :
+    envStep e (.forceClose p sec prim) o = e := by
+  simp [envStep]
+
+theorem envStep_managerCall (e : Env) (o : Obs) : envStep e .managerCall o = e := by
+  simp [envStep]
+
 theorem inv_step {e : Env} {s : State} (h : Inv e s) (op : Op) (hok : envOk e op = true) :
     Inv (envStep e op (step s op).2) (step s op).1 := by
   cases op with
   | otherAlloc n => exact inv_otherAlloc h n
+  | managerCall => rw [envStep_managerCall]; exact h
+  | forceClose p sec prim => rw [envStep_forceClose, step_forceClose_state]; exact h
   | «open» p permit send => exact inv_open h p permit send
   | inner ev =>
     cases ev with
@@ -623,6 +657,8 @@ theorem step_answer (s : State) (op : Op) (sid : Nat) (h : answerOf (step s op).
     ((∃ p c, op = .inner (.subOpened p (some sid) c)) ∨ op = .inner (.subFailed sid)) := by
   cases op with
   | otherAlloc n => simp [step, answerOf] at h
+  | managerCall => simp [step, answerOf] at h
+  | forceClose q sec prim => simp [step, answerOf] at h
   | «open» q permit send =>
     simp only [step] at h
     split at h <;> simp [answerOf] at h
@@ -686,6 +722,8 @@ theorem env_outstanding_sub (e : Env) (op : Op) (o : Obs) (x p c : Nat)
     (x, p, c) ∈ e.outstanding ∨ (o = .openOk x c ∧ ∃ permit send, op = .open p permit send) := by
   cases op with
   | otherAlloc n => left; simpa [envStep] using h
+  | managerCall => left; simpa [envStep] using h
+  | forceClose q a b => left; simpa [envStep] using h
   | «open» q permit send =>
     cases o with
     | openOk sid c' =>
@@ -753,6 +791,8 @@ theorem env_outstanding_keep (e : Env) (s : State) (op : Op) (x p c : Nat)
     answerOf (step s op).2 = some x := by
   cases op with
   | otherAlloc n => left; simpa [envStep] using h
+  | managerCall => left; simpa [envStep] using h
+  | forceClose q a b => left; simpa [envStep] using h
   | «open» q permit send =>
     left
     cases ho : (step s (.open q permit send)).2 with
@@ -877,6 +917,8 @@ theorem sub_local {e : Env} {s : State} (h : Inv e s) (op : Op) (hok : envOk e o
     simp [connected, hc]
   cases op with
   | otherAlloc n => simp [step]
+  | managerCall => simp [step]
+  | forceClose q a b => simp [step]
   | «open» q permit send =>
     constructor
     · intro p d ho; simp only [step] at ho; split at ho <;> cases ho
@@ -915,5 +957,54 @@ theorem sub_local {e : Env} {s : State} (h : Inv e s) (op : Op) (hok : envOk e o
         · cases sec <;> simp [hc]
         · simp [hc]
 
+/-! ### `force_close` at any point of a history -/
+
+theorem run_append (pre post : List Op) : ∀ s : State, run s (pre ++ post) = run (run s pre) post := by
+  induction pre with
+  | nil => intro s; rfl
+  | cons op rest ih => intro s; simp only [List.cons_append, run]; exact ih _
+
+theorem trace_append (pre post : List Op) : ∀ s : State,
+    trace s (pre ++ post) = trace s pre ++ trace (run s pre) post := by
+  induction pre with
+  | nil => intro s; rfl
+  | cons op rest ih => intro s; simp only [List.cons_append, trace, run, ih]
+
+theorem feasible_append (pre post : List Op) : ∀ (e : Env) (s : State),
+    feasible e s (pre ++ post) = (feasible e s pre && feasible (envRun e s pre) (run s pre) post) := by
+  induction pre with
+  | nil => intro e s; simp [feasible, envRun, run]
+  | cons op rest ih => intro e s; simp only [List.cons_append, feasible, envRun, run, ih, Bool.and_assoc]
+
+/-- A call that changes neither state nor environment can be inserted anywhere: the state afterwards, the
+protocol's observations of everything else, and what the environment may do are the same. -/
+theorem forceClose_insert (pre post : List Op) (s : State) (e : Env) (p : Peer) (sec prim : SendRes) :
+    run s (pre ++ .forceClose p sec prim :: post) = run s (pre ++ post) ∧
+    trace s (pre ++ .forceClose p sec prim :: post) =
+      trace s pre ++ (step (run s pre) (.forceClose p sec prim)).2 :: trace (run s pre) post ∧
+    feasible e s (pre ++ .forceClose p sec prim :: post) = feasible e s (pre ++ post) := by
+  refine ⟨?_, ?_, ?_⟩
+  · rw [run_append, run_append]; simp only [run, step_forceClose_state]
+  · rw [trace_append]; simp only [trace, step_forceClose_state]
+  · rw [feasible_append, feasible_append]
+    simp only [feasible, envOk, envStep_forceClose, step_forceClose_state, Bool.true_and]
+
+/-- Who is told to close: with room in both command channels, exactly the connections of the peer's context,
+secondary first; nobody if the peer is not connected. Never a connection outside the context. -/
+theorem forceClose_cmds (s : State) (p : Peer) (sec prim : SendRes) :
+    (cget s.conns p = none → (step s (.forceClose p sec prim)).2 = .force (some .peerDoesntExist) []) ∧
+    (∀ ctx, cget s.conns p = some ctx →
+      (step s (.forceClose p .ok .ok)).2 = .force none (ctx.secondary.toList ++ [ctx.primary]) ∧
+      ∀ r cs, (step s (.forceClose p sec prim)).2 = .force r cs → ∀ c ∈ cs, ctx.has c) := by
+  constructor
+  · intro h; simp [step, forceClose, h]
+  · intro ctx h
+    obtain ⟨a, b⟩ := ctx
+    constructor
+    · cases b <;> simp [step, forceClose, h, forceOne, forceSecondary]
+    · intro r cs ho c hc
+      simp only [step, forceClose, h, Obs.force.injEq] at ho
+      obtain ⟨_, rfl⟩ := ho
+      cases b <;> cases sec <;> cases prim <;> simp_all [forceOne, forceSecondary, Ctx.has] <;> omega
 
 end Litep2pVerif.Service
